@@ -33,7 +33,11 @@ for key, rs in sorted(res.items()):
     chk = [r for r in rs if r.startswith("check=")]
     if not conf or "demo_without=0 demo_with=1 suite_with=0" not in conf[0]:
         print("NOT CONFIRMED", key, rs); continue
-    src = "%s/%s/_seed" % (SR, prop)
+    root = SR
+    mtag = re.match(r"r(\d)-", k)
+    if mtag and os.path.isdir("/tmp/seed%s" % mtag.group(1)):
+        root = "/tmp/seed%s" % mtag.group(1)      # round n lives under /tmp/seed<n>
+    src = "%s/%s/_seed" % (root, prop)
     d = os.path.join(R, "seeded", key)
     os.makedirs(d, exist_ok=True)
     shutil.copyfile(os.path.join(src, "patch%s.diff" % kk), os.path.join(d, "patch.diff"))
@@ -63,7 +67,7 @@ for key, rs in sorted(res.items()):
         "caught": caught,
         "concrete_replay": caught and "no-failing-input-found" not in verdict,
         "history": notes.get(key, ""),
-        "author": "fresh sub-agent given only the property text and a scratch worktree of /repo under /tmp/seed; nothing from /verif",
+        "author": "fresh sub-agent given only the property text, a scratch worktree of /repo under /tmp and (rounds 3-4) a hint naming code sites to stay away from; nothing from /verif",
     }
     json.dump(meta, open(os.path.join(d, "meta.json"), "w"), indent=1)
     print("stored", key, "caught" if caught else "MISSED", verdict[:120])
